@@ -916,7 +916,15 @@ def metamorphic_search(ctx, shim, r, ncases):
             k = r.below(n + 1)
             absent = [("zz%02d" % r.below(50), r.choice([1, 3, 100, 200, 255]), *r.choice([(0, U), (0, n), (k, n)]))
                       for _ in range(r.range(1, 3))]
+            # many absent tags with wide values in front of a real ranged feature: absent features must not use up the
+            # 28 mask bits the real ones need
+            # (features are allocated in tag order: absent tags that sort before and after the real one)
+            many = [(r.choice(["0a%02d", "A%03d", "zy%02d"]) % j, r.choice([255, 200, 127, 3]), *r.choice([(0, n), (k, n), (0, U)]))
+                    for j in range(r.range(4, 40))]
+            k2 = r.below(n + 1)
             variants = {
+                "ranged": base + [(tag, v, k2, n)],
+                "absent-many+ranged": base + many + [(tag, v, k2, n)],
                 "global": base + [(tag, v, 0, U)],
                 "full-range": base + [(tag, v, 0, n)],
                 "over-range": base + [(tag, v, 0, n + r.range(1, 9))],
@@ -941,7 +949,7 @@ def metamorphic_search(ctx, shim, r, ncases):
                 nontriv += 1            # the feature does something on this font/text
             pairs = [("global", "full-range", "full-range-equals-global"), ("global", "over-range", "full-range-equals-global"),
                      ("none", "empty-range", "empty-range-equals-none"), ("none", "beyond-range", "empty-range-equals-none"),
-                     ("none", "absent-tags", "absent-tags-equal-none")]
+                     ("none", "absent-tags", "absent-tags-equal-none"), ("ranged", "absent-many+ranged", "absent-tags-equal-none")]
             for a, b, cls in pairs:
                 if get(a) != get(b):
                     bad += 1
@@ -955,10 +963,10 @@ def metamorphic_search(ctx, shim, r, ncases):
                                        "font_line": g[0], "lines": [g[0], g[idx[a]], g[idx[b]]], "features_a": variants[a],
                                        "features_b": variants[b], "result_a": get(a)[:600], "result_b": get(b)[:600]})
                     break
-    ctx.note_search("feature-metamorphic", total * 7, nontriv, fixtures=total, deviations=bad,
+    ctx.note_search("feature-metamorphic", total * 9, nontriv, fixtures=total, deviations=bad,
                     rule="per corpus fixture (all fonts and scripts of tests/shaping) one tag from a list of common feature tags with "
                          "value 0/1: global vs full range vs over-long range; none vs empty range vs range beyond the text vs extra "
-                         "absent tags; non-trivial = the global feature changes the shaping result")
+                         "absent tags; a ranged feature alone vs the same behind 4-39 absent tags with wide values; non-trivial = the global feature changes the shaping result")
 
 
 def run(ctx):
